@@ -7,6 +7,7 @@ use crate::solver::{Solve, Solver};
 use crate::state::{Constraint, FiniteDomain, SResult, State};
 use crate::stream::Stream;
 use crate::user::User;
+use std::cmp::{max, min};
 use std::rc::Rc;
 
 #[derive(Derivative)]
@@ -82,6 +83,22 @@ where
     }
 }
 
+/// Bounds of n / d for n in [nmin..nmax] and d in [dmin..dmax], when the divisor interval does
+/// not contain zero: the truncated corner quotients enclose every exact integer quotient.
+fn quotient_bounds(nmin: isize, nmax: isize, dmin: isize, dmax: isize) -> Option<(isize, isize)> {
+    if dmin <= 0 && dmax >= 0 {
+        return None;
+    }
+    let q1 = nmin.checked_div(dmin)?;
+    let q2 = nmin.checked_div(dmax)?;
+    let q3 = nmax.checked_div(dmin)?;
+    let q4 = nmax.checked_div(dmax)?;
+    Some((
+        min(min(q1, q2), min(q3, q4)),
+        max(max(q1, q2), max(q3, q4)),
+    ))
+}
+
 impl<U, E> Constraint<U, E> for TimesFdConstraint<U, E>
 where
     U: User,
@@ -146,37 +163,29 @@ where
                 let wmax = wdomain.max();
                 // The constraint is: u * v = w  <=>  u = w / v  <=>  v = w / u
                 //
-                // Given domains for u and v, we can then deduce that the domain of w must be
-                // in range [umin - vmax .. umax + vmin]. The constraining domain is built and
-                // intersected with the current domain of w in .process_domain()-call.
+                // Given domains for u and v, the domain of w must lie between the smallest and
+                // the largest of the four corner products of [umin..umax] and [vmin..vmax] (the
+                // domains may be negative or of mixed sign). The constraining domain is built
+                // and intersected with the current domain of w in .process_domain()-call.
                 //
-                // Same application of constraining domain is done for the other two variables.
-                //   w = u * v  =>  [umin * vmin .. umax * vmax]
-                //   u = w / v  =>  [wmin / vmax .. wmax / vmin]
-                //   v = w / u  =>  [wmin / umax .. wmax / umin]
+                // A factor is bounded by the corner quotients of w and the other factor, but
+                // only when the domain of the other factor does not contain zero.
                 //
                 // The constraint is not dropped until all variables converge into numbers.
+                let wlo = min(
+                    min(umin.saturating_mul(vmin), umin.saturating_mul(vmax)),
+                    min(umax.saturating_mul(vmin), umax.saturating_mul(vmax)),
+                );
+                let whi = max(
+                    max(umin.saturating_mul(vmin), umin.saturating_mul(vmax)),
+                    max(umax.saturating_mul(vmin), umax.saturating_mul(vmax)),
+                );
+                let (ulo, uhi) = quotient_bounds(wmin, wmax, vmin, vmax).unwrap_or((umin, umax));
+                let (vlo, vhi) = quotient_bounds(wmin, wmax, umin, umax).unwrap_or((vmin, vmax));
                 Ok(state
-                    .process_domain(
-                        &wwalk,
-                        Rc::new(FiniteDomain::from(
-                            umin.saturating_mul(vmin)..=umax.saturating_mul(vmax),
-                        )),
-                    )?
-                    .process_domain(
-                        &uwalk,
-                        Rc::new(FiniteDomain::from(
-                            wmin.checked_div(vmax).unwrap_or(umin)
-                                ..=wmax.checked_div(vmin).unwrap_or(umax),
-                        )),
-                    )?
-                    .process_domain(
-                        &vwalk,
-                        Rc::new(FiniteDomain::from(
-                            wmin.checked_div(umax).unwrap_or(vmin)
-                                ..=wmax.checked_div(umin).unwrap_or(vmax),
-                        )),
-                    )?
+                    .process_domain(&wwalk, Rc::new(FiniteDomain::from(wlo..=whi)))?
+                    .process_domain(&uwalk, Rc::new(FiniteDomain::from(ulo..=uhi)))?
+                    .process_domain(&vwalk, Rc::new(FiniteDomain::from(vlo..=vhi)))?
                     .with_constraint(self))
             }
             // If all operators do not yet have domains, then keep the constraint until it can
